@@ -1260,7 +1260,7 @@ class C15(Oracle):
                     all_p &= sp
                     if not codes.parsable_g(str(s)):
                         verbatim_in_use = True
-            if getattr(ctx, 'c15_conjunction_ok', True):
+            if True:
                 fv, fp = v.is_formatting_valid(), v.is_formatting_parsable()
                 require(fv == all_v, 'is_formatting_valid_is_conjunction', slot=slot, want=all_v, got=fv, value=o.to_json())
                 gated = all(codes.parsable_gating(c) for cell in o.cells for c in cell)
